@@ -55,6 +55,22 @@ def run(ctx):
     # ---- search on the real code: pairs ---------------------------------------------------------
     rev = ctx.run_go('compare', ['%s\t%s' % (R.enc(y), R.enc(x)) for x, y in pairs])
     ctx.cov['evaluations'] += len(rev)
+    # the same comparisons once more in another process, and every rule against itself: a comparison has one value
+    again1 = ctx.run_go('compare', ops)
+    selfc = ctx.run_go('compare', ['%s\t%s' % (R.enc(x), R.enc(x)) for x, y in pairs])
+    ctx.cov['evaluations'] += 2 * len(ops)
+    nunst = nrefl = 0
+    for i, (x, y) in enumerate(pairs):
+        if again1[i] != go[i]:
+            nunst += 1
+            if nunst <= 2:
+                ctx.violation('Compare gives different values for the same two rules from one call to the next: %s then %s' % (go[i], again1[i]),
+                              {'op': ops[i], 'a': x, 'b': y, 'first': go[i], 'second': again1[i]})
+        if selfc[i] != 'ok\t0':
+            nrefl += 1
+            if nrefl <= 2:
+                ctx.violation('a rule does not compare equal to itself: %s' % selfc[i], {'op': '%s\t%s' % (R.enc(x), R.enc(x)), 'a': x})
+    ctx.cov['search']['stability'] = {'pairs_recompared': len(ops), 'unstable': nunst, 'self_comparisons': len(ops), 'nonzero_self': nrefl}
     nid = nanti = 0
     judged = 0
     for i, (x, y) in enumerate(pairs):
